@@ -71,7 +71,7 @@ def main():
         caught = {}
         for chk in man["checks"]:
             pid = chk["property_id"]
-            rc, out = run([os.path.join(VERIF, "bin", "ikelint"), "-repo", wt, "-prop", pid, "-no-evidence", "-known", os.path.join(VERIF, "known_findings.json")], VERIF)
+            rc, out = run([os.environ.get("IKELINT_BIN", os.path.join(VERIF, "bin", "ikelint")), "-repo", wt, "-prop", pid, "-no-evidence", "-known", os.path.join(VERIF, "known_findings.json")], VERIF)
             if rc != 0:
                 lines = [l.strip() for l in out.splitlines() if l.strip().startswith(("VIOLATED", "UNDECIDED", "key:", "CANNOT"))]
                 caught[pid] = {"exit": rc, "findings": lines[:12]}
